@@ -26,6 +26,14 @@ def put(s, tag, body):
     a, b = f"<!-- BEGIN {tag} -->", f"<!-- END {tag} -->"
     if a not in s: return s
     return s[:s.index(a) + len(a)] + "\n" + body + "\n" + s[s.index(b):]
+costs = ["| property | section | kind | evaluations | distinct non-trivial | complete | wall s |", "|---|---|---|---|---|---|---|"]
+for f in sorted(glob.glob(os.path.join(ROOT, "evidence/C*.json"))):
+    e = json.load(open(f))
+    costs.append("| **{}** ({} tier, seed {}) | all | | {} | {} | | {} |".format(e["property_id"], e["tier"], e["seed"], e["coverage"]["evaluations"], e["coverage"]["distinct_nontrivial"], e["wall_s"]))
+    for sec in e["coverage"]["sections"]:
+        if sec["section"] == "regression-replays" and sec["evaluations"] == 0: continue
+        costs.append("| | {} | {} | {} | {} | {} | {} |".format(sec["section"], sec["kind"], sec["evaluations"], sec["distinct_nontrivial"], "yes" if sec["exhaustive"] else "", sec["wall_s"]))
+s = put(s, "COSTS", "\n".join(costs))
 s = put(s, "SEEDED", seeded)
 s = put(s, "MUTANTS", mut)
 open(path, "w").write(s)
